@@ -2,6 +2,10 @@
 
     Input: kind smd rmd cs rb smax rmax op*      -- see harness/src/base.rs (kind 2: rb = number of remote senders)
       send  0 sender tag plen fail nports poison L W      recv 1      burst end 2      drop sender 3 i
+      stalled recv  4 k at : a recv whose deserializer thread is held after [at] payload bytes while the
+      pending call is dropped and repeated up to [k] times, then released.  [recv] is cancel safe
+      ([reenter]) and the result of a receive does not depend on the speed of the helper thread, so this
+      is the op [ORecv]: the implementation has to produce the result of a plain recv.
     The value with tag [t] is represented by the byte string [[t; 2*nports + poison; L; 0; ...; 0]] of
     length [L] (its real encoded length); [decode]/[ports_of] read that header.  Frames are produced
     with the canonical framing ([att_frames]: chunks of the advertised chunk size); the theorems of
@@ -43,6 +47,8 @@ Fixpoint decode_ops (fuel : nat) (l : list N) : option (list op) :=
       | 1 :: r => option_map (cons ORecv) (decode_ops f r)
       | 2 :: r => option_map (cons OBurst) (decode_ops f r)
       | 3 :: i :: r => option_map (cons (ODrop i)) (decode_ops f r)
+      | 4 :: k :: pos :: r =>
+          if (8 <? k) || (100000 <? pos) then None else option_map (cons ORecv) (decode_ops f r)
       | _ => None
       end
   end.
